@@ -389,7 +389,8 @@ func (x *executor) assumeInitialWF(st *state, p *Ptr) {
 	}
 	t := c.applyPath(root, p.base, p.path)
 	w := c.inputWF(t, p.elemType())
-	st.assume(w)
+	// only memory that existed before the call (non-negative references) is "initial"
+	st.assume(mkImp(app(">=", "Bool", p.ref, refConst(0)), w))
 }
 
 func (x *executor) overflowObls(m *machine, fr *frame, in ssa.Instruction, ovf []overflowCheck) {
@@ -794,7 +795,13 @@ func (x *executor) checkPost(m *machine, fr *frame, rs []Val) {
 	for i, cl := range x.fc.freshExprs {
 		ev.where = cl.line
 		v := ev.eval(cl.e)
-		x.oblige(m, "ensures", fmt.Sprintf("fresh#%d", i+1), app("<", "Bool", x.c.slRef(v.t), refConst(0)), nil, "fresh "+cl.text)
+		var rt *T
+		if _, ok := v.typ.Underlying().(*types.Slice); ok {
+			rt = x.c.slRef(v.t)
+		} else {
+			rt = ev.term(v)
+		}
+		x.oblige(m, "ensures", fmt.Sprintf("fresh#%d", i+1), app("<=", "Bool", rt, refConst(0)), nil, "fresh "+cl.text)
 	}
 	if x.fc.fresh && len(rs) > 0 {
 		if _, ok := rs[0].typ.Underlying().(*types.Slice); ok {
